@@ -182,6 +182,7 @@ def _ucase(fn, v, L, G, shape=None, bounds=None, kw=1):
 
 def generate(tier, rng):
   G = 64 if tier != 'thorough' else 256
+  cfg_cases = _cfg_cases(tier, rng) if tier != 'search' else []
   n_rand = {'quick': 24, 'thorough': 200, 'search': 150}[tier]
   eighth = lambda n: [rng.randrange(-32, 33) / 8.0 for _ in range(n)]
   special = [
@@ -230,7 +231,8 @@ def generate(tier, rng):
     yield {'kind': 'D', 'x': eighth(rng.choice([1, 2, 4, 7, 16]))}
   # wave 3: argument forms, boundary values, reuse, caller-owned data, dtypes, contexts, remaining entry points
   for sub in XSUBS:
-    for agg in (['usq', 'rusq', 'drive', 'tern', 'usq_arith'] if sub in ('forms', 'boundary', 'reuse', 'owned') else [None]):
+    for agg in (['usq', 'rusq', 'drive', 'tern', 'usq_arith'] if sub in ('forms', 'boundary', 'reuse', 'owned') else
+                ['usq', 'rusq', 'drive', 'tern'] if sub == 'order' else [None]):
       if tier == 'quick' and agg == 'usq_arith' and sub != 'boundary':
         continue
       yield {'kind': 'X', 'sub': sub, 'agg': agg, 'L': rng.choice([2, 3, 5]), 'seed': rng.randrange(1, 2 ** 30),
@@ -273,6 +275,8 @@ def generate(tier, rng):
         ws[rng.randrange(nc)] = 1.0
       yield {'kind': 'A', 'agg': agg, 'L': rng.choice([2, 3, 4, 5, 17]), 'tree': rng.randrange(len(TREES)),
              'clients': nc, 'rounds': nr, 'weights': ws, 'seed': rng.randrange(1, 2 ** 30), 'key': rng.randrange(2 ** 31)}
+  for c in cfg_cases:
+    yield c
 
 
 # --------------------------------------------------------------------------
@@ -474,7 +478,7 @@ def run_A(case):
 # --------------------------------------------------------------------------
 # wave 3 extras (oracle only): every check is a named boolean
 
-XSUBS = ['forms', 'boundary', 'reuse', 'owned', 'dtypes', 'contexts', 'entry']
+XSUBS = ['forms', 'boundary', 'reuse', 'owned', 'dtypes', 'contexts', 'entry', 'compose', 'order', 'magnitude', 'ulp']
 
 
 def _close(a, b, rtol=1e-5, atol=1e-6):
@@ -712,11 +716,175 @@ def run_X(case):
       guard('drive-pytree-' + nm, f)
     guard('state-dataclass', lambda: (lambda s: float(s.num_bits) == 1.5 and s.replace(num_bits=2.0).num_bits == 2.0)(
         cp.CompressionState(1.5, jax.random.PRNGKey(0))))
+  elif sub == 'compose':
+    k, k2 = jax.random.PRNGKey(case['key']), jax.random.PRNGKey(case['key'] + 3)
+    v = jnp.asarray(np.array([_nz(x) / 8.0 for x in lcg(9, case['seed'])], np.float32))
+    for L in (2, 3, 5, 17):
+      q1 = cp.uniform_stochastic_quantize(v, L, k)
+      # a quantised vector is on its own grid (min and max are kept): quantising it again, with any key, changes nothing
+      guard(f'usq-idempotent-L{L}', lambda q1=q1, L=L: _close(cp.uniform_stochastic_quantize(q1, L, k2), q1, 1e-6, 1e-6))
+    b1 = cp.binary_stochastic_quantize(v, k)
+    guard('bsq-idempotent', lambda: _close(cp.binary_stochastic_quantize(b1, k2), b1, 0, 0))
+    guard('bsq-then-usq', lambda: _close(cp.uniform_stochastic_quantize(b1, 3, k2), b1, 1e-6, 1e-6))
+    d1 = cp.drive_pytree({'a': v})
+    guard('drive-idempotent', lambda: _close(_flat(cp.drive_pytree(d1)), _flat(d1), 1e-5, 1e-6))
+    # aggregator output fed to an aggregator (an aggregate is just another tree)
+    a = _make_agg({**case, 'agg': 'usq'})
+    o1, st = a.apply(_xclients(case), a.init())
+    guard('aggregate-of-aggregates-finite', lambda: np.all(np.isfinite(_flat(a.apply([(b'x', o1, 1.0), (b'y', o1, 3.0)], st)[0]))))
+  elif sub == 'order':
+    # clients whose dicts list the SAME keys in different insertion orders, ids not sorted, values differing per key
+    def mkc(c, order):
+      vals = {'z': [1.0 + c, 2.0, 4.0 + c], 'a': [10.0 * (c + 1)], 'm': [-1.0, -2.0 - c, -3.0, -8.0]}
+      return {k: jnp.asarray(np.array(vals[k], np.float32)) for k in order}, vals
+    orders = (['z', 'a', 'm'], ['m', 'z', 'a'], ['a', 'm', 'z'])
+    ids = [b'c02', b'c00', b'c10']
+    ws = [1.0, 3.0, 2.0]
+    cl, vals = [], []
+    for c in range(3):
+      p, vv = mkc(c, orders[c])
+      cl.append((ids[c], p, ws[c]))
+      vals.append(vv)
+    ag = mk()
+    with Spy() as spy, jax.disable_jit():
+      out, st = ag.apply(cl, ag.init())
+    guard('keys-kept', lambda: sorted(out) == ['a', 'm', 'z'] and out['a'].shape == (1,) and out['m'].shape == (4,) and out['z'].shape == (3,))
+    def per_key_mean():
+      # every key's aggregate must be close to the weighted mean of THAT key's inputs (within that key's value range)
+      ok = True
+      for k in ('a', 'm', 'z'):
+        exact = sum(w * np.array(vv[k]) for w, vv in zip(ws, vals)) / sum(ws)
+        span = max(max(abs(x) for x in vv[k]) for vv in vals)
+        ok &= bool(np.all(np.abs(np.asarray(out[k], np.float64) - exact) <= 2.0 * span + 1e-6))
+        ok &= bool(np.all(np.sign(np.asarray(out[k], np.float64)) * np.sign(exact) >= 0)) if case['agg'] != 'drive' else True
+      return ok
+    guard('per-key-association', per_key_mean)
+    def sorted_same():
+      cl2 = [(i, {k: p[k] for k in sorted(p)}, w) for i, p, w in cl]
+      o2, _ = mk().apply(cl2, mk().init())
+      return all(_close(o2[k], out[k]) for k in out)
+    guard('insertion-order-irrelevant', sorted_same)
+    def client_order_weights():
+      # permuting the cohort permutes the keys the clients get, but with ONE client the result cannot depend on its id
+      o3, _ = mk().apply([(b'zz', cl[1][1], 2.5)], mk().init())
+      o4, _ = mk().apply([(b'aa', cl[1][1], 0.5)], mk().init())
+      return all(_close(o3[k], o4[k]) for k in o3)
+    guard('single-client-id-and-weight-irrelevant', client_order_weights)
+  elif sub == 'magnitude':
+    k = jax.random.PRNGKey(case['key'])
+    base = np.array([_nz(x) / 8.0 for x in lcg(7, case['seed'])], np.float32)
+    for sc in (0.0, 1e-38, 1e-30, 1e-7, 5e-7, 1e-6, 1.0, 1e6, 1e30, 1e37):
+      v = jnp.asarray((base * np.float32(sc)).astype(np.float32))
+      vf = np.asarray(v, np.float32)
+      def member(out, L):
+        if sc < 1e-30:
+          return bool(np.all(np.isfinite(np.asarray(out))))
+        levels, step, vmin, vmax = _usq_levels([float(x) for x in vf], L)
+        scl = float(max(abs(vmin), abs(vmax), step)) + 1e-300
+        return all(min(abs(float(o) - float(l)), abs(float(o) - float(h))) <= 3e-6 * scl for o, (l, h, t) in zip(np.asarray(out, np.float64), levels))
+      guard(f'usq-scale-{sc:g}', lambda v=v, member=member: member(cp.uniform_stochastic_quantize(v, 5, k), 5))
+      guard(f'bsq-scale-{sc:g}', lambda v=v, member=member: member(cp.binary_stochastic_quantize(v, k), 2))
+    # TernGrad and DRIVE square their input: finite within the float32 range of the squares (documented assumption)
+    for sc in (0.0, 1e-15, 1e-7, 1.0, 1e6, 1e15):
+      v = jnp.asarray((base * np.float32(sc)).astype(np.float32))
+      guard(f'tern-finite-scale-{sc:g}', lambda v=v: bool(np.all(np.isfinite(np.asarray(cp.terngrad_quantize(v, k))))))
+      def drv(v=v):
+        o = np.asarray(cp.drive_pytree({'a': v})['a'], np.float64)
+        x = np.asarray(v, np.float64)
+        n1 = np.sum(np.abs(x))
+        ref = (np.sum(x * x) / n1) * np.sign(x) if n1 > 0 else np.zeros_like(x)
+        return _close(o, ref, rtol=1e-5, atol=1e-30)
+      guard(f'drive-scale-{sc:g}', drv)
+    # explicit bounds far away from / much wider than the data (both sides of the clamp)
+    v = jnp.asarray(base)
+    for a, b in ((-1e30, 1e30), (-1e-30, 1e-30), (0.0, 1e6), (-1e6, 0.0)):
+      def bnd(a=a, b=b):
+        o = np.asarray(cp.uniform_stochastic_quantize(v, 3, k, v_min=a, v_max=b), np.float64)
+        grid = [a, (a + b) / 2, b]
+        return bool(np.all(np.isfinite(o))) and all(min(abs(x - g) for g in grid) <= 1e-6 * max(abs(a), abs(b)) for x in o)
+      guard(f'usq-bounds-{a:g}-{b:g}', bnd)
+  elif sub == 'ulp':
+    # draws exactly AT the threshold and one ulp on either side (dyadic data: the float threshold is exact)
+    v = np.array([0.0, 1.0, 2.0, 3.0, 4.0], np.float32)        # L = 3: grid 0, 2, 4; thresholds 0.5 at 1.0 and 3.0
+    t = np.float32(0.5)
+    def at(u, fn):
+      with Spy(const_u=float(u), wrap=False):
+        return np.asarray(_call_q(fn, [float(x) for x in v], 3, [5], 0), np.float64)
+    up, dn = np.nextafter(t, np.float32(1)), np.nextafter(t, np.float32(0))
+    guard('usq-at-threshold-upper', lambda: _close(at(t, 'usq'), [0, 2, 2, 4, 4], 0, 0))          # rand > t is False: upper level
+    guard('usq-one-ulp-above-lower', lambda: _close(at(up, 'usq'), [0, 0, 2, 2, 4], 0, 0))
+    guard('usq-one-ulp-below-upper', lambda: _close(at(dn, 'usq'), [0, 2, 2, 4, 4], 0, 0))
+    w = np.array([0.0, 2.0, 4.0], np.float32)                  # binary: threshold 0.5 at 2.0
+    def atb(u):
+      with Spy(const_u=float(u), wrap=False):
+        return np.asarray(_call_q('bsq', [0.0, 2.0, 4.0], 2, [3], 0), np.float64)
+    guard('bsq-at-threshold-lower', lambda: _close(atb(t), [0, 0, 4], 0, 0))                        # rand >= v is True: min
+    guard('bsq-one-ulp-below-upper', lambda: _close(atb(dn), [0, 4, 4], 0, 0))
+    guard('bsq-one-ulp-above-lower', lambda: _close(atb(up), [0, 0, 4], 0, 0))
+    one = np.nextafter(np.float32(1), np.float32(0))                                               # largest draw < 1
+    guard('largest-draw-keeps-max', lambda: _close(at(one, 'usq'), [0, 0, 2, 2, 4], 0, 0) and _close(atb(one), [0, 0, 4], 0, 0))
+    guard('zero-draw-keeps-min', lambda: _close(at(0.0, 'usq'), [0, 2, 2, 4, 4], 0, 0) and _close(atb(0.0), [0, 4, 4], 0, 0))
   return {'checks': chk}
 
 
+# --------------------------------------------------------------------------
+# wave 4: global JAX configuration (a subprocess per setting, tools/harness/c11_c18_cfg_worker.py)
+
+CFGS = {'threefry-nonpartitionable': {'JAX_THREEFRY_PARTITIONABLE': '0'},
+        'prng-rbg': {'JAX_DEFAULT_PRNG_IMPL': 'rbg'},
+        'x64': {'JAX_ENABLE_X64': '1'},
+        'rank-promotion-raise': {'JAX_NUMPY_RANK_PROMOTION': 'raise'},
+        'disable-jit': {'JAX_DISABLE_JIT': '1'}}
+_PROCS = {}
+
+
+def _start_cfg(name, seed):
+  import os
+  import subprocess
+  import sys
+  env = dict(os.environ)
+  env.update(CFGS[name])
+  worker = os.path.join(os.path.dirname(os.path.abspath(__file__)), 'c11_c18_cfg_worker.py')
+  return subprocess.Popen([sys.executable, worker, PROP.lower(), str(seed)], env=env, stdout=subprocess.PIPE,
+                          stderr=subprocess.DEVNULL, text=True)
+
+
+def _cfg_cases(tier, rng):
+  """The quick tier starts its one non-default setting right away (it runs while the other cases do)."""
+  names = ['threefry-nonpartitionable'] if tier != 'thorough' else list(CFGS)
+  cases = [{'kind': 'G', 'cfg': n, 'seed': rng.randrange(1, 2 ** 30)} for n in names]
+  if tier == 'quick':
+    for c in cases:
+      _PROCS[(c['cfg'], c['seed'])] = _start_cfg(c['cfg'], c['seed'])
+  return cases
+
+
+def run_G(case):
+  import json
+  p = _PROCS.pop((case['cfg'], case['seed']), None) or _start_cfg(case['cfg'], case['seed'])
+  try:
+    out, _ = p.communicate()
+  except BaseException:
+    p.kill()
+    raise
+  line = [l for l in out.split('\n') if l.startswith('CFGRESULT ')]
+  if not line:
+    return {'ok': False, 'rc': p.returncode, 'n': 0, 'violations': [['worker-failed', f'no result (exit code {p.returncode})', None]]}
+  r = json.loads(line[-1][len('CFGRESULT '):])
+  return {'ok': True, 'rc': p.returncode, 'n': r['n'], 'config': r['config'], 'violations': r['violations']}
+
+
+def _oracle_G(case, obs):
+  return [(f'cfg.{case["cfg"]}.{k}', f'under {CFGS[case["cfg"]]}: {m} [inner case {json_short(c)}]') for k, m, c in obs['violations']]
+
+
+def json_short(c):
+  import json
+  return json.dumps({k: v for k, v in (c or {}).items() if k not in ('x', 'y', 'v')})[:200]
+
+
 def run(case):
-  return {'X': run_X, 'U': run_U, 'D': run_D, 'A': run_A}[case['kind']](case)
+  return {'G': run_G, 'X': run_X, 'U': run_U, 'D': run_D, 'A': run_A}[case['kind']](case)
 
 
 # --------------------------------------------------------------------------
@@ -993,7 +1161,7 @@ def _oracle_X(case, obs):
 
 
 def oracle(case, obs):
-  return {'X': _oracle_X, 'U': _oracle_U, 'D': _oracle_D, 'A': _oracle_A}[case['kind']](case, obs)
+  return {'G': _oracle_G, 'X': _oracle_X, 'U': _oracle_U, 'D': _oracle_D, 'A': _oracle_A}[case['kind']](case, obs)
 
 
 # --------------------------------------------------------------------------
@@ -1028,7 +1196,7 @@ def encode(case, obs):
 
 def _encode(case, obs):
   kind = case['kind']
-  if kind == 'X':
+  if kind in ('X', 'G'):
     return None
   if kind == 'U':
     if not obs['finite'] or obs['n_out'] != len(obs['v']):
@@ -1109,10 +1277,16 @@ def describe(case, obs):
     v = case['v']
     return {'kind': 'U.' + case['fn'], 'L': min(case['L'], 18), 'n': min(len(v), 14),
             'vector': 'constant' if len(set(v)) == 1 else 'generic'}
+  if case['kind'] == 'G':
+    return {'kind': 'G.' + case['cfg'], 'inner_cases': obs.get('n')}
   if case['kind'] == 'X':
     return {'kind': 'X.' + case['sub'] + ('.' + case['agg'] if case.get('agg') else '')}
   if case['kind'] == 'A':
-    return {'kind': 'A.' + case['agg'], 'clients': case['clients'], 'rounds': case['rounds'], 'tree': case['tree']}
+    sizes = [int(np.prod(sh)) for sh in TREES[case['tree']]]
+    evenk = all(max(0, (n - 1).bit_length()) % 2 == 0 for n in sizes)
+    hyp = ('n/a' if case['agg'] not in ('rusq', 'drive') else
+           'rot_leaf_ok (modelled in Coq)' if evenk else 'padded size not a square: oracle only (C11_rotated_* theorems do not apply)')
+    return {'hypothesis': hyp, 'kind': 'A.' + case['agg'], 'clients': case['clients'], 'rounds': case['rounds'], 'tree': case['tree']}
   return {'kind': 'D'}
 
 
